@@ -62,6 +62,11 @@ class RustSRPAnalyzer(RustBaseAnalyzer):
         Returns:
             The type identifier name (e.g., "Foo" from "impl Foo {}")
         """
+        type_node = impl_node.child_by_field_name("type")
+        if type_node is not None and type_node.type == "generic_type":
+            type_node = type_node.child_by_field_name("type")
+        if type_node is not None and type_node.type == "type_identifier":
+            return self.extract_node_text(type_node)
         for child in impl_node.children:
             if child.type == "type_identifier":
                 return self.extract_node_text(child)
